@@ -28,6 +28,11 @@ RULE = ("(pdm) random rose trees (1-12 leaves quick, up to 40 thorough; polytomi
         "(same result, matrix unaltered); after every step every ordered leaf pair (length, edge count, mrca must be THE turning node of the CURRENT tree), "
         "mapped taxa, distances(), sums, MPD / MNTD (both weightings, normalised or not) and every node pair of the NodeDistanceMatrix are judged by the "
         "root-path oracle on the tree as it is at that moment; "
+        "(mix) magnitude-mixed trees (twigs 1e-12 … 1e-6 below stems 1e3 … 1e12, the reverse, or per-edge draws; arbitrary doubles; ladders, stars, balanced and random "
+        "shapes): taxon-keyed matrix (entries, distances(), sums, MPD / MNTD), NodeDistanceMatrix and treemeasure.patristic_distance (refresh or current encoding; "
+        "a quarter of the tm cases too) judged by the exact Fraction path sum against the float returned within 1e-9 RELATIVE (edge counts and common ancestors exactly), "
+        "tm also compared with the exact model within the same tolerance; any disagreement between implementation and model about WHETHER a call raises (or which error) is an "
+        "oracle failure of kind `refusal` with a replay; "
         "thorough adds every shape <= 6 leaves (incl. one such history per shape). When an obligation breaks or model and code disagree, `search` runs up to 2500 (thorough 40000) "
         "traced reconstruction cases on 2-12 taxa. Non-trivial = >= 4 leaves.")
 MODELLED_NOT_VERIFIED = [
@@ -97,6 +102,16 @@ def fr(x):
 def close(a, b, tol=TOL):
     a, b = float(a), float(b)
     return abs(a - b) <= tol * max(1.0, abs(a), abs(b))
+
+
+def relclose(got, want, tol=Fraction(1, 10 ** 9)):
+    """|got - want| <= 1e-9 * |want| in exact arithmetic: what binary64 summation of a handful of positive edge lengths is allowed to lose
+    (k terms lose at most k * 2^-53 relative); a result obtained by subtracting large root distances does not meet it"""
+    got, want = Fraction(got), Fraction(want)
+    return abs(got - want) <= tol * abs(want)
+
+
+ERRORS = ("AssertionError", "AttributeError", "ValueError", "KeyError", "IndexError", "TypeError", "ZeroDivisionError")
 
 
 def kbit(taxon):
@@ -303,7 +318,7 @@ def case_pdm(ctx, dendropy, case, pending):
         judge_ndm(ctx, tree.node_distance_matrix(), tree, case, "")
 
 
-def judge_ndm(ctx, ndm, tree, case, tag):
+def judge_ndm(ctx, ndm, tree, case, tag, rel=False):
     """every ordered pair of nodes of the CURRENT tree: length, edge count and common ancestor (a node of this tree) from root paths"""
     nodes = tu.walk(tree.seed_node)
     dm = depth_map(tree)
@@ -329,7 +344,7 @@ def judge_ndm(ctx, ndm, tree, case, tag):
             except KeyError:
                 ctx.fail("node-distance-matrix", "%sNodeDistanceMatrix has no entry for nodes (%d,%d) (pre-order numbers)" % (tag, i, j), case)
                 return False
-            if Fraction(gd) != w or gs != ws or gm is not pa[k - 1]:
+            if (not relclose(gd, w) if rel else Fraction(gd) != w) or gs != ws or gm is not pa[k - 1]:
                 ctx.fail("node-distance-matrix", "%sNodeDistanceMatrix nodes (%d,%d) (pre-order numbers): (%s, %s, mrca %s), path has (%s, %s, %s)" % (
                     tag, i, j, fr(gd), gs, num.get(id(gm), "not a node of the current tree"), fr(w), ws, num[id(pa[k - 1])]), case)
                 return False
@@ -522,11 +537,98 @@ def case_tm(ctx, dendropy, case, pending):
         got = "ValueError"
     if wellformed and (current or refresh or stored[0] == 0) and all(any(x.taxon is by_bit[k] for x in lv) for k in (a, b)):
         w = Fraction(0) if a == b else want[(a, b)][0]
-        if got in ("AttributeError", "ValueError") or Fraction(got) != w:
+        if got in ("AttributeError", "ValueError") or (not relclose(Fraction(got), w) if case.get("mixed") else Fraction(got) != w):
             ctx.fail("treemeasure", "treemeasure.patristic_distance(bits %d,%d, encoding %s, refresh=%s) = %s; path length is %s" % (
                 a, b, enc, refresh, got, fr(w)), case)
     line = "tm %d %d %d %d %s %s" % (1 if rooted else 0, 1 if refresh else 0, a, b, ",".join(map(str, stored)) or "-", " ".join(toks2))
-    pending.append((line, case, got, "exact"))
+    pending.append((line, case, got, "rel" if case.get("mixed") else "exact"))
+
+
+# ------------------------------------------------------------------ op mix: magnitude-mixed edge lengths
+def mixed_lengths(rng, toks):
+    """rewrite the length column with lengths of very different magnitude: twigs of 1e-12 … 1e-6 below stems of 1e3 … 1e12, the reverse,
+    or an independent draw per edge (arbitrary doubles, not dyadic): sums of a few positive terms stay accurate to ~1e-15 relative,
+    a difference of two root distances does not"""
+    k = int(toks[0])
+    par = [int(x) for x in toks[1:1 + k]]
+    leaf = [str(i) not in toks[1:1 + k] for i in range(k)]
+    toks = list(toks)
+    pattern = rng.choice(["twigs", "twigs", "reverse", "any"])
+
+    def small():
+        return rng.uniform(1, 10) * 10.0 ** (-rng.randint(6, 12))
+
+    def big():
+        return rng.uniform(1, 10) * 10.0 ** rng.randint(3, 12)
+    for i in range(k):
+        if par[i] < 0:
+            toks[1 + 2 * k + i] = "N"
+            continue
+        r = rng.random()
+        if r < 0.04:
+            v = None
+        elif pattern == "any":
+            v = small() if rng.random() < 0.5 else big()
+        elif (pattern == "twigs") == leaf[i]:
+            v = small()
+        else:
+            v = big() if rng.random() < 0.85 else small()
+        toks[1 + 2 * k + i] = "N" if v is None else fr(v)
+    return toks
+
+
+def gen_mix(ctx, dendropy, rng, max_leaves):
+    n = rng.randint(2, max_leaves)
+    r = rng.random()
+    if r < 0.35:
+        shape = rng.choice(tu.shape_families(n))
+    else:
+        shape = tu.rand_shape(rng, n, p_poly=rng.choice([0.0, 0.2, 0.5]), p_unary=rng.choice([0.0, 0.1]))
+    tns = tu.make_namespace(dendropy, n, rng.randint(0, 2))
+    tree = tu.build_tree(dendropy, shape, tns, rng.sample(list(tns), n), None, None)
+    toks, ids = tu.encode_tree(tree)
+    bits = sorted(tu.bit_of(tns, x.taxon) for x in leaves_lr(tree))
+    pairs = [(rng.choice(bits), rng.choice(bits), rng.random() < 0.7) for _ in range(3)]
+    # the first / last two leaves in pre-order: on ladders the recent cherry at the end of the backbone
+    lvs = [tu.bit_of(tns, x.taxon) for x in leaves_lr(tree)]
+    pairs.append((lvs[-2], lvs[-1], True))
+    pairs.append((lvs[0], lvs[1], rng.random() < 0.5))
+    return {"op": "mix", "tree": mixed_lengths(rng, toks), "rooted": rng.choice([True, True, False, None]), "pairs": pairs,
+            "ndm": len(ids) <= 25}
+
+
+def case_mix(ctx, dendropy, case, pending):
+    """lengths of mixed magnitude through every route to a path length: the taxon-keyed matrix, the node matrix,
+    treemeasure.patristic_distance (Tree.mrca + climbs); exact Fraction path sums against the floats returned, 1e-9 relative"""
+    from dendropy.calculate import treemeasure
+    toks = case["tree"]
+    rooted = case.get("rooted")
+    tree, ids = tu.tree_from_tokens(dendropy, toks, rooted=rooted)
+    n = len(leaves_lr(tree))
+    ctx.case(["mix", toks, rooted, case.get("pairs")], n >= 4, sample=case, kind="mix")
+    with time_limit(30):
+        pdm = tree.phylogenetic_distance_matrix()
+    if not judge_matrix(ctx, dendropy, pdm, tree, case, "", "full", rel=True):
+        return
+    if case.get("ndm") and not judge_ndm(ctx, tree.node_distance_matrix(), tree, case, "", rel=True):
+        return
+    want = oracle_nodes(tree)
+    for (ba, bb, upd) in case.get("pairs", []):
+        t2, ids2 = tu.tree_from_tokens(dendropy, toks, rooted=bool(rooted))
+        if not upd:
+            t2.encode_bipartitions(suppress_unifurcations=False, collapse_unrooted_basal_bifurcation=False)
+        by = {kbit(x.taxon): x.taxon for x in leaves_lr(t2)}
+        with time_limit(30):
+            d = treemeasure.patristic_distance(t2, by[ba], by[bb], is_bipartitions_updated=not upd)
+        w = Fraction(0) if ba == bb else want[(ba, bb)][0]
+        if not relclose(d, w):
+            ctx.fail("treemeasure", "treemeasure.patristic_distance(bits %d,%d, refresh=%s) = %r; the edge lengths on the path sum to %r (exactly %s)" % (
+                ba, bb, upd, d, float(w), fr(w)), case)
+            return
+        # model (exact rationals) on the same tree; a rooted tree is not altered by the refresh
+        stored = [0] * len(ids2) if upd else [ids2.node(i).edge.bipartition.leafset_bitmask for i in range(len(ids2))]
+        if rooted:
+            pending.append(("tm 1 %d %d %d %s %s" % (1 if upd else 0, ba, bb, ",".join(map(str, stored)), " ".join(toks)), case, fr(d), "rel"))
 
 
 # ------------------------------------------------------------------ op nj / upgma
@@ -820,7 +922,7 @@ def oracle_nodes(tree):
     return out
 
 
-def judge_matrix(ctx, dendropy, pdm, tree, case, tag, level="full"):
+def judge_matrix(ctx, dendropy, pdm, tree, case, tag, level="full", rel=False):
     """the statement's matrix clause evaluated on a matrix object, whatever its past, against the tree AS IT IS NOW.
     level "full": lengths, edge counts, common ancestors (nodes of the current tree), taxa, distances(), sums, MPD / MNTD;
     level "dist": lengths only (matrix filled from a dict / read back from CSV)"""
@@ -854,8 +956,8 @@ def judge_matrix(ctx, dendropy, pdm, tree, case, tag, level="full"):
                     ctx.fail("reuse-entry", "%staxa bits (%d,%d): matrix gives length %s; the unique path has %s" % (tag, ba, bb, fr(d), fr(w[0])), case)
                     return False
                 continue
-            if Fraction(d) != w[0] or st != w[1]:
-                ctx.fail("reuse-entry", "%staxa bits (%d,%d): matrix gives (length %s, edges %s); the unique path has (length %s, edges %s)" % (
+            if (not relclose(d, w[0]) if rel else Fraction(d) != w[0]) or st != w[1]:
+                ctx.fail("pdm-entry" if rel else "reuse-entry", "%staxa bits (%d,%d): matrix gives (length %s, edges %s); the unique path has (length %s, edges %s)" % (
                     tag, ba, bb, fr(d), st, fr(w[0]), w[1]), case)
                 return False
             if m is not w[2]:
@@ -868,11 +970,12 @@ def judge_matrix(ctx, dendropy, pdm, tree, case, tag, level="full"):
     for weighted in (True, False):
         ds = sorted(Fraction(x) for x in pdm.distances(is_weighted_edge_distances=weighted))
         wd = sorted(Fraction(v[0] if weighted else v[1]) for (a, b), v in want.items() if a < b)
-        if ds != wd:
+        if (len(ds) != len(wd) or not all(relclose(x, y) for x, y in zip(ds, wd))) if rel else ds != wd:
             ctx.fail("reuse-distances", "%sdistances(weighted=%s) = [%s]; the unordered leaf pairs have [%s]" % (
                 tag, weighted, " ".join(map(fr, ds)), " ".join(map(fr, wd))), case)
             return False
-        if Fraction(pdm.sum_of_distances(is_weighted_edge_distances=weighted)) != sum(wd, Fraction(0)):
+        sod = Fraction(pdm.sum_of_distances(is_weighted_edge_distances=weighted))
+        if not relclose(sod, sum(wd, Fraction(0))) if rel else sod != sum(wd, Fraction(0)):
             ctx.fail("reuse-distances", "%ssum_of_distances(weighted=%s) is not the sum over unordered pairs" % (tag, weighted), case)
             return False
         total = tu.total_length(tree)
@@ -893,8 +996,8 @@ def judge_matrix(ctx, dendropy, pdm, tree, case, tag, level="full"):
                 else:
                     vals = [min(val(a, b) for b in bits if b != a) for a in bits] if n >= 2 else []
                 exact = None if not vals else sum(vals, Fraction(0)) / nf / len(vals)
-                if (r is None) != (exact is None) or (r is not None and not close(r, exact, 1e-12)):
-                    ctx.fail("reuse-summary", "%s%s(weighted=%s, normalised=%s) = %r; the average of the path values is %s" % (
+                if (r is None) != (exact is None) or (r is not None and not (relclose(r, exact) if rel else close(r, exact, 1e-12))):
+                    ctx.fail("summary-" + kind if rel else "reuse-summary", "%s%s(weighted=%s, normalised=%s) = %r; the average of the path values is %s" % (
                         tag, kind, weighted, norm, r, None if exact is None else fr(exact)), case)
                     return False
     if len(list(pdm.distinct_taxon_pair_iter())) != n * (n - 1) // 2:
@@ -1134,11 +1237,28 @@ def flush(ctx, pending):
         elif how in ("flat", "flat-exact"):
             shown = flat_show(got)
             ok = flat_equal(got, m.split(), how == "flat-exact")
+        elif how == "rel":
+            shown = got
+            if got in ERRORS or m.split(" ")[0] in ERRORS or m in ("Null", "bad-op"):
+                ok = m == got
+            else:
+                try:
+                    ok = relclose(Fraction(got), Fraction(m))
+                except ValueError:
+                    ok = False
         else:
             shown = got
             ok = m == got
         if not ok:
             ctx.disagree(op, case, shown, m)
+            # implementation and model disagree about WHETHER the call raises (or which error): the refusal behaviour of the entry point
+            # changed, or a call in the documented domain raises — a failing input in its own right, not only a broken correspondence
+            gi = isinstance(shown, str) and shown.split(" ")[0] in ERRORS
+            mi = m.split(" ")[0] in ERRORS
+            if (gi or mi) and (not (gi and mi) or shown.split(" ")[0] != m.split(" ")[0]) and m != "bad-op":
+                ctx.fail("refusal", "op %s: the library %s, the reference behaviour (model of the unchanged entry point) is %s" % (
+                    op, ("raises " + shown.split(" ")[0]) if gi else "returns " + str(shown)[:80],
+                    ("to raise " + m.split(" ")[0]) if mi else "to return " + m[:80]), case)
     del pending[:]
 
 
@@ -1212,7 +1332,10 @@ def gen_tm(ctx, dendropy, rng, max_leaves):
     enc = "fresh" if r < 0.45 else ("never" if r < 0.7 else "stale")
     a = rng.choice(bits)
     b = rng.choice(bits) if rng.random() < 0.9 else a
-    return {"op": "tm", "tree": toks, "rooted": rng.choice([True, True, False, None]), "enc": enc,
+    mixed = rng.random() < 0.25
+    if mixed:
+        toks = mixed_lengths(rng, toks)
+    return {"op": "tm", "tree": toks, "rooted": rng.choice([True, True, False, None]), "enc": enc, "mixed": mixed,
             "how": (rng.choice(["swap", "move", "graft", "prune"]), rng.randrange(100), rng.randrange(100)), "aim": rng.random() < 0.7, "a": a, "b": b,
             "refresh": rng.random() < 0.5}
 
@@ -1292,7 +1415,7 @@ def gen_matrix(ctx, rng, max_n):
 
 def one_case(ctx, dendropy, case, pending):
     op = case["op"]
-    fn = {"pdm": case_pdm, "mrca": case_mrca, "recon": case_recon, "matrix": case_matrix, "tm": case_tm, "hist": case_hist}.get(op)
+    fn = {"pdm": case_pdm, "mrca": case_mrca, "recon": case_recon, "matrix": case_matrix, "tm": case_tm, "hist": case_hist, "mix": case_mix}.get(op)
     if fn is None:
         raise ValueError(op)
     try:
@@ -1338,8 +1461,10 @@ def run(ctx):
         ml = max_leaves if rng.random() < 0.85 else 12
         if r < 0.30:
             case = gen_pdm(ctx, dendropy, rng, ml)
-        elif r < 0.39:
+        elif r < 0.38:
             case = gen_hist(ctx, dendropy, rng, min(ml, ctx.pick(8, 14)))
+        elif r < 0.44:
+            case = gen_mix(ctx, dendropy, rng, min(ml, ctx.pick(10, 20)))
         elif r < 0.62:
             case = gen_mrca(ctx, dendropy, rng, ml)
         elif r < 0.72:
